@@ -21,13 +21,33 @@ from ..uflsem import T, as_T, equal_T
 from .c01_compose import walk
 
 
+def direction_symbols(v):
+    """component -> symbol of the reference value a direction carries there.  A direction is an argument, a fixed
+    component of one (`t[0]`), or a list tensor of such (`as_vector([t[1], t[2]])`, `as_vector([t[0], 0])`); components
+    holding a literal zero are absent"""
+    if "_ref" in v.tags:
+        return {k[0]: ex.args[0] for k, ex in v.tags["_ref"].data.items()}
+    kind, ops = v.tags.get("ufl_class"), v.tags.get("ufl_operands", ())
+    if kind == "Indexed":
+        fixed = tuple(ops[1])
+        if not all(isinstance(i, int) for i in fixed):
+            raise Unsupported("a direction with free indices")
+        return {c[len(fixed) :]: s for c, s in direction_symbols(ops[0]).items() if c[: len(fixed)] == fixed}
+    if kind == "ListTensor":
+        return {(k,) + c: s for k, o in enumerate(ops) for c, s in direction_symbols(o).items()}
+    if v.is_zero_literal or kind == "Zero":
+        return {}
+    raise Unsupported(f"direction of class {kind}")
+
+
 def gateaux_oracle(t: T, pairs):
     """pairs: [(w node, v node)] with identical shapes; the symbols of w (and D..(w symbols)) vary like v's"""
     table = {}
     for w, v in pairs:
-        wr, vr = w.tags["_ref"], v.tags["_ref"]
+        wr, vr = w.tags["_ref"], direction_symbols(v)
         for key, ex in wr.data.items():
-            table[ex.args[0]] = vr.data[key].args[0]
+            if key[0] in vr:
+                table[ex.args[0]] = vr[key[0]]  # a component the direction leaves alone (a literal zero) does not vary
 
     def rule(name, k):
         name, at, side = name.partition("@")  # a restricted symbol varies like the direction's symbol on that side
@@ -62,6 +82,7 @@ def compose(ctx, rep):
         v = W.function("v", (), "Argument", number=0)
         v2 = W.function("v2", (), "Argument", number=1)
         vq = W.function("vq", (2,), "Argument", number=0)
+        vt = W.function("vt", (3,), "Argument", number=0)
         # piecewise constant fields (constant over a cell, not across a facet) and a piecewise constant direction
         u0 = W.function("u0", (), "Coefficient", number=5, degree=0)
         c0 = W.function("c0", (), "Coefficient", number=6, degree=0)
@@ -89,6 +110,11 @@ def compose(ctx, rep):
             ("(u0('+') - u0('-'))**2  piecewise constant field and direction", um.m_power(S(plus(u0), P(um.m_scalar(-1), minus(u0))), um.m_scalar(2)), [(u0, c0)]),
             ("u0('+')**3 * f('-')  piecewise constant field and direction", P(um.m_power(plus(u0), three), minus(f)), [(u0, c0)]),
             ("u0*u0*w  piecewise constant field, Argument direction", P(P(u0, u0), w), [(u0, v)]),
+            # directions that are components of a vector-valued argument (derivative(F, s, t[0]); split(t) of a mixed argument)
+            ("grad(w)[i]*grad(w)[i] + w*w   direction vt[0]", S(gg, P(w, w)), [(w, idx(vt, 0))]),
+            ("exp(w*f)*grad(w)[1]   direction vt[2]", P(cm["Exp"](P(w, f)), idx(gw, 1)), [(w, idx(vt, 2))]),
+            ("grad(w)[i]*q[i] + q[i]*q[i]*w   w.r.t. (w, q), directions split(vt)", S(um.m_index_sum(P(idx(gw, i), idx(q, i)), MI((i,))), P(um.m_index_sum(P(idx(q, i), idx(q, i)), MI((i,))), w)), [(w, idx(vt, 0)), (q, um.m_list_tensor(idx(vt, 1), idx(vt, 2)))]),
+            ("grad(q)[i,i]*w + grad(w)[i]*q[i]   w.r.t. q, direction (vt[2], 0)", S(P(um.m_index_sum(idx(W.grad(q), i, i), MI((i,))), w), um.m_index_sum(P(idx(gw, i), idx(q, i)), MI((i,)))), [(q, um.m_list_tensor(idx(vt, 2), um.m_zero()))]),
         ]
         return F, (w, v, v2)
 
